@@ -111,7 +111,11 @@ class Field:
 
     def get_offset(self, instance):  # compatible with info
         if self.is_reference:
-            reloffset = instance._offsets[self.index]
+            # as stored in the buffer now (a copy kept in the handle goes
+            # stale when the struct is rewritten through another handle)
+            reloffset = Int64._from_buffer(
+                instance._buffer, instance._offset + self.offset
+            )
             if self.is_union:
                 absoffset = instance._offset + reloffset
                 ftype = self.ftype._get_stored_type(
@@ -307,7 +311,7 @@ class Struct(metaclass=MetaStruct):
     def _to_buffer(cls, buffer, offset, value, info=None):
         if isinstance(value, cls) and not cls._has_refs:  # binary copy
             buffer.update_from_xbuffer(
-                offset, value._buffer, value._offset, value._size
+                offset, value._buffer, value._offset, value._get_size()
             )
         else:  # value must be a dict, again potential disctructive
             if info is None:
@@ -332,11 +336,11 @@ class Struct(metaclass=MetaStruct):
         # check if direct copy is possible
         if (
             isinstance(value, self.__class__)
-            and value._size == self._size
+            and value._get_size() == self._get_size()
             and not self._has_refs  # relative references cannot be copied
         ):
             self._buffer.update_from_xbuffer(
-                self._offset, value._buffer, value._offset, value._size
+                self._offset, value._buffer, value._offset, value._get_size()
             )
             # `value` may split the same size differently among its dynamic
             # fields: refresh the offsets this handle cached
@@ -350,7 +354,7 @@ class Struct(metaclass=MetaStruct):
         else:
             # all or nothing: a field that cannot be assigned must not leave
             # the fields before it modified
-            saved = self._buffer.to_bytearray(self._offset, self._size)
+            saved = self._buffer.to_bytearray(self._offset, self._get_size())
             try:
                 for field in self._fields:
                     if field.name in value:
